@@ -81,6 +81,25 @@ class M:
 '''
 
 
+def _lit(name):
+    return ('cl', frozenset({(name, True)}))
+
+
+def _drop_lit(state, name):
+    """forget every clause that mentions the pseudo-literal `name`"""
+    return frozenset(f for f in state if not (isinstance(f, tuple) and f and f[0] == 'cl' and
+                                              any(a == name for a, _p in f[1])))
+
+
+def token_ok(state, tok):
+    """on every path reaching here: nothing has been written yet, or <owner>.tok was invalidated /
+    known to be empty -- also when that is only known as a disjunction after a join"""
+    if 'nowrite' in state or ('inv', tok) in state or ('guard', tok) in state:
+        return True
+    allowed = {('#nowrite', True), ('#ok:' + tok, True)}
+    return any(f[1] <= allowed for f in state if isinstance(f, tuple) and f and f[0] == 'cl')
+
+
 class _InvFlow(MustFlow):
     """facts ('inv', token): <owner>.token set invalid; ('guard', token): passed a raising
     guard on the cache being filled."""
@@ -123,12 +142,12 @@ class _InvFlow(MustFlow):
                     tokens = {'var_ev_list': ['var_ev_list', 'pupdate', 'dupdate'],
                               'primal': ['pupdate'], 'dual': ['dupdate'], 'roaffine': []}[tok]
                     for k in tokens:
-                        state = state | {('guard', k)}
+                        state = state | {('guard', k), _lit('#ok:' + k)}
         return state
 
     def transfer(self, node, state):
         if any(node is m for m in self.markers):
-            state = state - {'nowrite'}
+            state = _drop_lit(state - {'nowrite'}, '#nowrite')
         if isinstance(node, ast.Assign):
             if len(node.targets) == 1 and isinstance(node.targets[0], ast.Name) and \
                     isinstance(node.value, (ast.Attribute, ast.Name)):
@@ -140,9 +159,9 @@ class _InvFlow(MustFlow):
                                node.value.value is (None if t.attr == 'var_ev_list' else True))
                     if own == self.owner:
                         if invalid:
-                            state = state | {('inv', t.attr)}
+                            state = state | {('inv', t.attr), _lit('#ok:' + t.attr)}
                         else:
-                            state = state - {('inv', t.attr)}
+                            state = _drop_lit(state - {('inv', t.attr)}, '#ok:' + t.attr)
                     else:
                         self.unresolved.append(ntext(node))
         for n in ast.walk(node):
@@ -153,7 +172,8 @@ class _InvFlow(MustFlow):
                     for st in exit_states(self.repo, self.cls, callee, self.owner, (), self.depth + 1):
                         pass
                     facts = exit_facts(self.repo, self.cls, callee, self.owner, self.depth + 1)
-                    state = state | frozenset(f for f in facts if f[0] in ('inv', 'guard'))
+                    state = state | frozenset(f for f in facts if f[0] in ('inv', 'guard')) | \
+                        frozenset(_lit('#ok:' + f[1]) for f in facts if f[0] in ('inv', 'guard'))
                 continue
             if isinstance(n, ast.Call) and isinstance(n.func, ast.Attribute) and self.depth < 2:
                 recv = ntext(n.func.value)
@@ -168,7 +188,9 @@ class _InvFlow(MustFlow):
                             sub_owner = 'self' if recv == self.owner else self.owner
                             facts = exit_facts(self.repo, target_cls if recv == self.owner else self.cls,
                                                callee, sub_owner, self.depth + 1)
-                            state = state | frozenset(f for f in facts if f[0] in ('inv', 'guard'))
+                            state = state | frozenset(f for f in facts if f[0] in ('inv', 'guard')) | \
+                                frozenset(_lit('#ok:' + f[1]) for f in facts if f[0] in ('inv', 'guard')) | \
+                        frozenset(_lit('#ok:' + f[1]) for f in facts if f[0] in ('inv', 'guard'))
         return state
 
     def _class_of(self, recv):
@@ -187,7 +209,7 @@ def exit_states(repo, cls, fi, owner, markers=(), depth=0):
     fl = _InvFlow(repo, cls, owner, depth)
     fl.markers = list(markers)
     fl.method_owner = fi.cls
-    o = fl.run(body_stmts(fi), {'nowrite'})
+    o = fl.run(body_stmts(fi), {'nowrite', _lit('#nowrite')})
     exits = [s for s, _ in o.returns] + ([o.normal] if o.normal is not None else [])
     exits = [e for e in exits if e is not None]
     if fl.unresolved and depth == 0:
@@ -339,10 +361,7 @@ def run(repo):
             markers = [e.stmt for es in hit.values() for e in es]
             missing = set()
             for st in exit_states(repo, cls, fi, owner, markers):
-                if 'nowrite' in st:
-                    continue          # this exit is reached without having written any state
-                have = {f[1] for f in st if isinstance(f, tuple) and f[0] in ('inv', 'guard')}
-                missing |= need - have
+                missing |= {t for t in need if not token_ok(st, t)}
             missing = sorted(missing)
             res.inst({'mutator': fi.fq, 'writes': sorted('.'.join(p) for p in hit),
                       'owner': owner, 'needs': sorted(need), 'missing': missing}, not missing)
